@@ -140,8 +140,12 @@ pub fn drive(args: &[String]) -> i32 {
         let mut k = 1u32; let mut pi = (1.0 - p) * (1.0 - p); while pi > 0.5 { k += 1; pi = pi * pi; }
         let nd = rnd.below(4) as usize;
         let mut dcells: Vec<&str> = vec![]; let mut words = vec![];
-        for _ in 0..nd { dcells.push("b"); words.push(uw([0.0, pi - eps, pi / 2.0][rnd.below(3) as usize])); }
-        dcells.push("a"); words.push(uw([pi, pi + eps, 0.99][rnd.below(3) as usize]));
+        // thresholds are judged with a relative margin of 2^-40 (the pointwise rules of TraceBtpe measure them to that precision);
+        // the last ulp of (1-p)^m is not part of the documented law
+        let below = |t: f64| t * (1.0 - 9.094947017729282e-13);
+        let above = |t: f64| (t * (1.0 + 9.094947017729282e-13)).min(1.0 - eps);
+        for _ in 0..nd { dcells.push("b"); words.push(uw([0.0, below(pi), pi / 2.0][rnd.below(3) as usize])); }
+        dcells.push("a"); words.push(uw([above(pi), above(pi) + eps, 0.99][rnd.below(3) as usize]));
         let ntry = 1 + rnd.below(3) as usize;
         let mut mtry: Vec<(u64, &str)> = vec![];
         for i in 0..ntry {
@@ -152,8 +156,8 @@ pub fn drive(args: &[String]) -> i32 {
                 continue;
             }
             words.push((rnd.next() & !((1u64 << k) - 1)) | m);
-            if last { mtry.push((m, "acc")); words.push(uw([0.0, thr - eps, thr / 2.0][rnd.below(3) as usize])); }
-            else { mtry.push((m, "rej")); words.push(uw([thr, (thr + eps).min(1.0 - eps), (thr + 1.0) / 2.0][rnd.below(3) as usize])); }
+            if last { mtry.push((m, "acc")); words.push(uw([0.0, below(thr), thr / 2.0][rnd.below(3) as usize])); }
+            else { mtry.push((m, "rej")); words.push(uw([above(thr), (above(thr) + eps).min(1.0 - eps), (thr + 1.0) / 2.0][rnd.below(3) as usize])); }
         }
         let mut rng = ScriptRng::new(words, 1);
         let r = guarded(|| dist.sample(&mut rng));
